@@ -81,6 +81,12 @@ fn exact_pair(a: CQ, b: CQ) -> Result<(), String> {
 fn fcomp() -> Vec<f64> {
     vec![0.0, -0.0, 1.0, -1.0, 3.0, 1.0 / 3.0, -7.5, 1e-100, -1e-100, 1e100, -1e100]
 }
+/// thorough tier: the magnitudes in between as well, a value one ulp above 1 and the classic non-dyadic tenth
+fn fcomp_thorough() -> Vec<f64> {
+    let mut v = fcomp();
+    v.extend([1e-7, -1e40, 1e-40, 0.1, 1.0 + f64::EPSILON, -1e70, 7e-71]);
+    v
+}
 const ULP_BOUND: f64 = 8.0 * f64::EPSILON;
 
 fn dd(x: f64) -> DD {
@@ -309,11 +315,11 @@ fn main() {
             judge(acc, idx, || format!("Rat a=({},{}) b=({},{})", a.re, a.im, b.re, b.im), || exact_pair(a, b));
         },
     );
-    let fc = fcomp();
+    let fc = if ctx.quick() { fcomp() } else { fcomp_thorough() };
     let fv: Vec<Cmplx> = fc.iter().flat_map(|a| fc.iter().map(move |b| Cmplx::new(*a, *b))).collect();
     let nf = fv.len() as u64;
     ctx.lattice(
-        "Complex<f64>: all ordered pairs with components over {0,-0,+-1,3,1/3,-7.5,+-1e-100,+-1e100}",
+        if ctx.quick() { "Complex<f64>: all ordered pairs with components over {0,-0,+-1,3,1/3,-7.5,+-1e-100,+-1e100}" } else { "Complex<f64>: all ordered pairs with components over {0,-0,+-1,3,1/3,-7.5,+-1e-100,+-1e100,1e-7,-1e40,1e-40,0.1,1+eps,-1e70,7e-71}" },
         nf * nf,
         |idx| format!("a={:?} b={:?}", fv[(idx / nf) as usize], fv[(idx % nf) as usize]),
         |idx, acc| {
@@ -367,7 +373,7 @@ fn main() {
             });
         },
     );
-    let depth = ctx.pick(4, 6);
+    let depth = ctx.pick(4, 7);
     let inits = vec![St { z: Complex::new(r(1), r(0)), m: CQ::new(r(1), r(0)) }, St { z: Complex::new(r(0), rq(1, 2)), m: CQ::new(r(0), rq(1, 2)) }];
     explore(&ctx, "compound-assignment histories on Complex<Rat>", inits.clone(), BfsOpts { max_depth: depth, state_cap: ctx.pick(1_000_000, 20_000_000) });
     if ctx.quick() {
